@@ -25,11 +25,17 @@ type Step struct {
 type Case struct {
 	Kind string `json:"kind"` // history | geom
 	// history
-	Defs   []string      `json:"defs,omitempty"`   // pool of definitions (PROJ.4 text or registered names)
-	Inputs [][][2]vkit.F `json:"inputs,omitempty"` // Inputs[d][k]: point k expressed in system d
-	Steps  []Step        `json:"steps,omitempty"`
-	Hop    bool          `json:"hop,omitempty"`  // some pair needs the intermediate WGS84 step (generator label)
-	Axis   bool          `json:"axis,omitempty"` // some definition has a non-default axis order
+	Defs []string `json:"defs,omitempty"` // pool of definitions (PROJ.4 text or registered names)
+	// Edited[d] / EditKind[d]: the definition with one parameter changed (x_0 + 1000, or another UTM zone) and which field
+	// that is; the history step "copyedit" makes a struct copy of the (possibly already used) SR, sets that exported field and
+	// uses the copy from then on - it must behave like a fresh parse of the edited text
+	Edited   []string      `json:"edited,omitempty"`
+	EditKind []string      `json:"edit_kind,omitempty"`
+	EditVal  []float64     `json:"edit_val,omitempty"`
+	Inputs   [][][2]vkit.F `json:"inputs,omitempty"` // Inputs[d][k]: point k expressed in system d
+	Steps    []Step        `json:"steps,omitempty"`
+	Hop      bool          `json:"hop,omitempty"`  // some pair needs the intermediate WGS84 step (generator label)
+	Axis     bool          `json:"axis,omitempty"` // some definition has a non-default axis order
 	// geom
 	G      *vkit.GJ   `json:"g,omitempty"`
 	Aff    [6]float64 `json:"aff,omitempty"`
@@ -101,6 +107,21 @@ func gen(t *rapid.T) Case {
 			s = rapid.SampledFrom([]string{"WGS84", "EPSG:4326", "EPSG:3857", "GOOGLE", "EPSG:4269"}).Draw(t, "name")
 		}
 		c.Defs = append(c.Defs, s)
+		ek, ev, et := "", 0.0, ""
+		if s == d.String() {
+			switch d.Proj {
+			case "merc", "lcc", "aea", "eqdc", "tmerc":
+				e := d
+				e.X0 = d.X0 + 1000
+				ek, ev, et = "x0", e.X0, e.String()
+			case "utm":
+				e := d
+				e.Zone = d.Zone%60 + 1
+				e.Lon0 = float64(6*e.Zone - 183)
+				ek, ev, et = "zone", float64(e.Zone), e.String()
+			}
+		}
+		c.EditKind, c.EditVal, c.Edited = append(c.EditKind, ek), append(c.EditVal, ev), append(c.Edited, et)
 		if d.Axis != "" && d.Axis != "enu" {
 			c.Axis = true
 		}
@@ -134,7 +155,7 @@ func gen(t *rapid.T) Case {
 	ns := rapid.IntRange(2, 30).Draw(t, "nsteps")
 	ntr := 0
 	for i := 0; i < ns; i++ {
-		op := rapid.SampledFrom([]string{"build", "call", "call", "call", "call", "reparse"}).Draw(t, "op")
+		op := rapid.SampledFrom([]string{"build", "call", "call", "call", "call", "reparse", "copyedit"}).Draw(t, "op")
 		if ntr == 0 {
 			op = "build"
 		}
@@ -147,7 +168,7 @@ func gen(t *rapid.T) Case {
 		case "call":
 			st.Tr = rapid.IntRange(0, ntr-1).Draw(t, "tr")
 			st.Pt = rapid.IntRange(0, npts-1).Draw(t, "pt")
-		case "reparse":
+		case "reparse", "copyedit":
 			st.Src = rapid.IntRange(0, nd-1).Draw(t, "which")
 		}
 		c.Steps = append(c.Steps, st)
@@ -167,6 +188,7 @@ func same(a, b float64) bool {
 
 func runHistory(c Case) (v vkit.Verdict) {
 	v.Class("history")
+	cur := append([]string(nil), c.Defs...) // the text each pool slot currently stands for
 	srs := make([]*proj.SR, len(c.Defs))
 	for i, s := range c.Defs {
 		sr, err := proj.Parse(s)
@@ -176,9 +198,10 @@ func runHistory(c Case) (v vkit.Verdict) {
 		srs[i] = sr
 	}
 	type trans struct {
-		tr       proj.Transformer
-		src, dst int
-		calls    int
+		tr             proj.Transformer
+		src, dst       int
+		srcTxt, dstTxt string
+		calls          int
 	}
 	var trs []trans
 	maxCalls := 0
@@ -193,13 +216,27 @@ func runHistory(c Case) (v vkit.Verdict) {
 			if err != nil {
 				return v.Fail("step %d: NewTransform(%q, %q): %v", i, c.Defs[st.Src], c.Defs[st.Dst], err)
 			}
-			trs = append(trs, trans{tr: tr, src: st.Src, dst: st.Dst})
+			trs = append(trs, trans{tr: tr, src: st.Src, dst: st.Dst, srcTxt: cur[st.Src], dstTxt: cur[st.Dst]})
 		case "reparse":
-			sr, err := proj.Parse(c.Defs[st.Src])
+			sr, err := proj.Parse(cur[st.Src])
 			if err != nil {
 				return v.Fail("step %d: re-Parse: %v", i, err)
 			}
 			srs[st.Src] = sr
+		case "copyedit":
+			if st.Src >= len(c.EditKind) || c.EditKind[st.Src] == "" || cur[st.Src] != c.Defs[st.Src] {
+				continue
+			}
+			cp := *srs[st.Src] // a struct copy of a reference that may already have been used
+			switch c.EditKind[st.Src] {
+			case "x0":
+				cp.X0 = c.EditVal[st.Src]
+			case "zone":
+				cp.Zone = c.EditVal[st.Src]
+			}
+			srs[st.Src] = &cp
+			cur[st.Src] = c.Edited[st.Src]
+			v.Class("copyedit")
 		case "call":
 			if st.Tr >= len(trs) {
 				continue
@@ -218,9 +255,9 @@ func runHistory(c Case) (v vkit.Verdict) {
 			// the reference: freshly parsed definitions, freshly built transformer, first call
 			var fx, fy float64
 			var ferr error
-			ftr, err := freshTransform(c.Defs[tt.src], c.Defs[tt.dst])
+			ftr, err := freshTransform(tt.srcTxt, tt.dstTxt)
 			if err != nil {
-				return v.Fail("fresh NewTransform(%q, %q): %v", c.Defs[tt.src], c.Defs[tt.dst], err)
+				return v.Fail("fresh NewTransform(%q, %q): %v", tt.srcTxt, tt.dstTxt, err)
 			}
 			var fpan string
 			fx, fy, ferr, fpan = callT(ftr, x, y)
@@ -229,7 +266,7 @@ func runHistory(c Case) (v vkit.Verdict) {
 			}
 			if (gerr != nil) != (ferr != nil) || (gerr == nil && (!same(gx, fx) || !same(gy, fy))) {
 				return v.Fail("step %d: call %d of transformer %q -> %q on (%v, %v) returned (%v, %v, err=%v); a freshly built transformer returns (%v, %v, err=%v)",
-					i, tt.calls, c.Defs[tt.src], c.Defs[tt.dst], x, y, gx, gy, gerr, fx, fy, ferr)
+					i, tt.calls, tt.srcTxt, tt.dstTxt, x, y, gx, gy, gerr, fx, fy, ferr)
 			}
 		}
 	}
@@ -385,7 +422,7 @@ func TestProp(t *testing.T) {
 		ID: "C10",
 		Rule: "rapid, stateful: a pool of 2-4 spatial references (C08 definition generator with +axis values other than enu, named/explicit datums needing the WGS84 step, registered names such " +
 			"as EPSG:3857) whose usable regions share a position; a history of 2-30 steps: build a transformer between two pool members (sharing the parsed SR objects), call transformer i on point k (valid points of the shared region, and four inputs on which transformers tend to fail: the pole, latitude 120, 1e30 and NaN) " +
-			"(repeatedly, interleaved with other transformers), re-parse a definition. After every call the result (values to 1e-9 relative - rounding only -, NaN with NaN, and error-ness) must equal what a transformer freshly " +
+			"(repeatedly, interleaved with other transformers), re-parse a definition, or replace a pool member by a struct copy of itself with one exported field edited (x_0 + 1000 or another UTM zone; from then on the slot stands for the edited definition). After every call the result (values to 1e-9 relative - rounding only -, NaN with NaN, and error-ness) must equal what a transformer freshly " +
 			"built from freshly parsed definitions returns on its first call; no panic. Geometry part: all eight types (nested collections, empty members) with a pure integer affine fake transformer that " +
 			"fails on the k-th vertex call or on a poisoned vertex, or a nil transformer: result has the same type and nesting (a *Bounds becomes its 4-corner polygon) with vertex i = t(vertex i), the " +
 			"input is unchanged, nil returns the geometry itself, a failing vertex yields exactly the transformer's error. Non-trivial = some transformer called >=2 times, or a pair with a datum shift, or " +
